@@ -9,6 +9,7 @@ CONSTANTS
   IdsIdentifyContent = TRUE
   IncOf <- MCIncOf
   StatusInc = 0
+  SearchOnlyWhenEmpty = FALSE
   HostSpellsOddly = FALSE
   FetchCanonicalises = FALSE
   PrunesOnStart = FALSE
